@@ -47,6 +47,16 @@ func funcDecl(f *ast.File, name string) *ast.FuncDecl {
 	return nil
 }
 
+func funcDeclRecv(f *ast.File, recv, name string) *ast.FuncDecl {
+	for _, d := range f.Decls {
+		if fd, ok := d.(*ast.FuncDecl); ok && fd.Name.Name == name && fd.Recv != nil && len(fd.Recv.List) == 1 && src(fd.Recv.List[0].Type) == recv {
+			return fd
+		}
+	}
+	fail("method not found: " + recv + "." + name)
+	return nil
+}
+
 func isLog(s ast.Stmt) bool {
 	es, ok := s.(*ast.ExprStmt)
 	if !ok {
@@ -111,6 +121,222 @@ func skeleton(fd *ast.FuncDecl, vars map[string]bool) []string {
 	return out
 }
 
+
+var whichOf = map[string]string{"blacklist": ".blacklist", "currentAllocs": ".current", "prioritylist": ".priority"}
+var destOf = map[string]string{"currentMetrics": ".current", "priorityMetrics": ".priority", "candidatesMetrics": ".candidate"}
+
+// guardOf recognises `containsPeer(<list>, m.Peer)`.
+func guardOf(e ast.Expr) string {
+	call, ok := e.(*ast.CallExpr)
+	if !ok || src(call.Fun) != "containsPeer" || len(call.Args) != 2 || src(call.Args[1]) != "m.Peer" {
+		return ".other"
+	}
+	if w, ok := whichOf[src(call.Args[0])]; ok {
+		return "(.inList " + w + ")"
+	}
+	return ".other"
+}
+
+// destOfBody recognises `continue` and `<group>Metrics[m.Peer] = m`.
+func destOfBody(body []ast.Stmt) string {
+	var l []ast.Stmt
+	for _, b := range body {
+		if !isLog(b) {
+			l = append(l, b)
+		}
+	}
+	if len(l) != 1 {
+		return ".other"
+	}
+	switch st := l[0].(type) {
+	case *ast.BranchStmt:
+		if st.Tok == token.CONTINUE && st.Label == nil {
+			return ".skip"
+		}
+	case *ast.AssignStmt:
+		if len(st.Lhs) == 1 && len(st.Rhs) == 1 && st.Tok == token.ASSIGN && src(st.Rhs[0]) == "m" {
+			if ix, ok := st.Lhs[0].(*ast.IndexExpr); ok && src(ix.Index) == "m.Peer" {
+				if d, ok := destOf[src(ix.X)]; ok {
+					return d
+				}
+			}
+		}
+	}
+	return ".other"
+}
+
+// classification gives the lines of the loop that files each metric (for the text tie) and its shape as a
+// Lean `Classifier`: a tag-less switch of containsPeer guards, or a lookup map filled list by list before the
+// loop (`for _, p := range <list> { dest[p] = <group> }`, later fills overwrite), or unknown.
+func classification(alloc *ast.FuncDecl) ([]string, string) {
+	var lines []string
+	shape := "Classifier.unknown"
+	type fill struct{ m, which, dest string }
+	var fills []fill
+	for _, s := range alloc.Body.List {
+		st, ok := s.(*ast.RangeStmt)
+		if !ok {
+			continue
+		}
+		if src(st.X) != "metrics" {
+			// a fill loop of a lookup map?
+			if w, ok := whichOf[src(st.X)]; ok && st.Value != nil && len(st.Body.List) == 1 {
+				if as, ok := st.Body.List[0].(*ast.AssignStmt); ok && len(as.Lhs) == 1 && len(as.Rhs) == 1 {
+					if ix, ok := as.Lhs[0].(*ast.IndexExpr); ok && src(ix.Index) == src(st.Value) {
+						d := ".other"
+						if src(as.Rhs[0]) == "nil" {
+							d = ".skip"
+						} else if x, ok := destOf[src(as.Rhs[0])]; ok {
+							d = x
+						}
+						fills = append(fills, fill{src(ix.X), w, d})
+						lines = append(lines, "fill "+src(st.X)+" => "+src(as))
+					}
+				}
+			}
+			continue
+		}
+		var body []ast.Stmt
+		for _, bs := range st.Body.List {
+			if !isLog(bs) {
+				body = append(body, bs)
+			}
+		}
+		if len(body) == 1 {
+			if sw, ok := body[0].(*ast.SwitchStmt); ok && sw.Tag == nil && sw.Init == nil {
+				var cs []string
+				for _, c := range sw.Body.List {
+					cc := c.(*ast.CaseClause)
+					cond, g := "default", ".default"
+					if len(cc.List) > 0 {
+						var parts []string
+						for _, e := range cc.List {
+							parts = append(parts, src(e))
+						}
+						cond = strings.Join(parts, " , ")
+						g = ".other"
+						if len(cc.List) == 1 {
+							g = guardOf(cc.List[0])
+						}
+					}
+					var bl []string
+					for _, b := range cc.Body {
+						bl = append(bl, src(b))
+					}
+					lines = append(lines, cond+" => "+strings.Join(bl, "; "))
+					cs = append(cs, "("+g+", "+destOfBody(cc.Body)+")")
+				}
+				shape = "Classifier.switch [" + strings.Join(cs, ", ") + "]"
+				continue
+			}
+		}
+		// not a plain switch: print the body; recognise the lookup-map form
+		for _, bs := range body {
+			lines = append(lines, src(bs))
+		}
+		if len(body) == 2 && len(fills) > 0 {
+			as, ok1 := body[0].(*ast.AssignStmt)
+			sw, ok2 := body[1].(*ast.SwitchStmt)
+			if ok1 && ok2 && len(as.Lhs) == 2 && len(as.Rhs) == 1 && sw.Tag == nil && sw.Init == nil && len(sw.Body.List) == 2 {
+				d, listed := src(as.Lhs[0]), src(as.Lhs[1])
+				same := true
+				for _, f := range fills {
+					if src(as.Rhs[0]) != f.m+"[m.Peer]" {
+						same = false
+					}
+				}
+				c0, c1 := sw.Body.List[0].(*ast.CaseClause), sw.Body.List[1].(*ast.CaseClause)
+				if same && len(c0.List) == 1 && src(c0.List[0]) == "!"+listed && destOfBody(c0.Body) == ".candidate" &&
+					len(c1.List) == 1 && src(c1.List[0]) == d+" != nil" && len(c1.Body) == 1 && src(c1.Body[0]) == d+"[m.Peer] = m" {
+					var fs []string
+					for _, f := range fills {
+						fs = append(fs, "("+f.which+", "+f.dest+")")
+					}
+					shape = "Classifier.lookup [" + strings.Join(fs, ", ") + "] .candidate"
+				}
+			}
+		}
+	}
+	return lines, shape
+}
+
+var cmpOf = map[token.Token][2]string{token.LSS: {".lt", ".gt"}, token.GTR: {".gt", ".lt"}, token.LEQ: {".le", ".ge"}, token.GEQ: {".ge", ".le"}}
+
+// cmpExpr recognises `x OP y` (or `y OP x`, flipped).
+func cmpExpr(e ast.Expr) string {
+	b, ok := e.(*ast.BinaryExpr)
+	if !ok {
+		return ".other"
+	}
+	c, ok := cmpOf[b.Op]
+	if !ok {
+		return ".other"
+	}
+	switch src(b.X) + " " + src(b.Y) {
+	case "x y":
+		return c[0]
+	case "y x":
+		return c[1]
+	}
+	return ".other"
+}
+
+// sortShape reads SortNumeric's loop (which guards skip a metric, how the value is parsed) and Less (the comparison per direction).
+func sortShape(sortFn, less *ast.FuncDecl) string {
+	skipD, skipU, base, bits := "false", "false", "0", "0"
+	for _, s := range sortFn.Body.List {
+		rs, ok := s.(*ast.RangeStmt)
+		if !ok || src(rs.X) != "candidates" {
+			continue
+		}
+		parsed := false
+		for _, b := range rs.Body.List {
+			switch st := b.(type) {
+			case *ast.IfStmt:
+				cont := len(st.Body.List) == 1 && src(st.Body.List[0]) == "continue" && st.Else == nil && st.Init == nil
+				if cont && src(st.Cond) == src(rs.Value)+".Discard()" && !parsed {
+					skipD = "true"
+				}
+				if cont && src(st.Cond) == "err != nil" && parsed {
+					skipU = "true"
+				}
+			case *ast.AssignStmt:
+				if len(st.Rhs) == 1 {
+					if c, ok := st.Rhs[0].(*ast.CallExpr); ok && src(c.Fun) == "strconv.ParseUint" && len(c.Args) == 3 &&
+						src(c.Args[0]) == src(rs.Value)+".Value" && src(st.Lhs[0]) == "val" {
+						base, bits, parsed = src(c.Args[1]), src(c.Args[2]), true
+					}
+				}
+			}
+		}
+	}
+	fwd, rev := ".other", ".other"
+	defs := map[string]string{}
+	for _, s := range less.Body.List {
+		switch st := s.(type) {
+		case *ast.AssignStmt:
+			if len(st.Lhs) == 1 && len(st.Rhs) == 1 {
+				defs[src(st.Lhs[0])] = src(st.Rhs[0])
+			}
+		case *ast.IfStmt:
+			if src(st.Cond) == "s.reverse" && len(st.Body.List) == 1 && st.Else == nil {
+				if r, ok := st.Body.List[0].(*ast.ReturnStmt); ok && len(r.Results) == 1 {
+					rev = cmpExpr(r.Results[0])
+				}
+			}
+		case *ast.ReturnStmt:
+			if len(st.Results) == 1 {
+				fwd = cmpExpr(st.Results[0])
+			}
+		}
+	}
+	if defs["peeri"] != "s.peers[i]" || defs["peerj"] != "s.peers[j]" || defs["x"] != "s.m[peeri]" || defs["y"] != "s.m[peerj]" {
+		fwd, rev = ".other", ".other"
+	}
+	return fmt.Sprintf("{ skipDiscarded := %s, skipUnparsable := %s, base := %s, bits := %s, forward := %s, reverse := %s }",
+		skipD, skipU, base, bits, fwd, rev)
+}
+
 func lean(s string) string {
 	return `"` + strings.ReplaceAll(strings.ReplaceAll(s, `\`, `\\`), `"`, `\"`) + `"`
 }
@@ -143,49 +369,20 @@ func main() {
 	}
 	allocF, cfgF := parse("allocate.go"), parse("cluster_config.go")
 
-	// allocate(): early exits, then the classification switch inside `for _, m := range metrics`
+	// allocate(): early exits, then the classification of each metric inside `for _, m := range metrics`
 	alloc := funcDecl(allocF, "allocate")
-	var cases []string
 	early := skeleton(alloc, map[string]bool{"metrics": true, "currentAllocs": true})
-	for _, s := range alloc.Body.List {
-		switch st := s.(type) {
-		case *ast.RangeStmt:
-			if src(st.X) != "metrics" {
-				continue
-			}
-			for _, bs := range st.Body.List {
-				sw, ok := bs.(*ast.SwitchStmt)
-				if !ok {
-					if !isLog(bs) {
-						fail("unexpected statement in the metrics loop: " + src(bs))
-					}
-					continue
-				}
-				if sw.Tag != nil || sw.Init != nil {
-					fail("classification switch has a tag or init")
-				}
-				for _, c := range sw.Body.List {
-					cc := c.(*ast.CaseClause)
-					cond := "default"
-					if len(cc.List) > 0 {
-						var parts []string
-						for _, e := range cc.List {
-							parts = append(parts, src(e))
-						}
-						cond = strings.Join(parts, " , ")
-					}
-					var body []string
-					for _, b := range cc.Body {
-						body = append(body, src(b))
-					}
-					cases = append(cases, cond+" => "+strings.Join(body, "; "))
-				}
-			}
-		}
-	}
+	cases, classifier := classification(alloc)
 	if len(cases) == 0 {
-		fail("classification switch not found in allocate()")
+		fail("classification loop not found in allocate()")
 	}
+	var calls []string
+	ast.Inspect(alloc, func(n ast.Node) bool {
+		if c, ok := n.(*ast.CallExpr); ok && strings.HasSuffix(src(c.Fun), "obtainAllocations") {
+			calls = append(calls, src(c))
+		}
+		return true
+	})
 
 	obtain := funcDecl(allocF, "obtainAllocations")
 	oSk := skeleton(obtain, map[string]bool{"nCurrentValid": true, "nCandidatesValid": true, "needed": true, "wanted": true,
@@ -220,7 +417,7 @@ func main() {
 	sortF := parse("allocator/util/metricsorter.go")
 
 	var b strings.Builder
-	b.WriteString("/- GENERATED by harness/extract_c03 from allocate.go and cluster_config.go; do not edit. -/\nnamespace CV.C03.Gen\n\n")
+	b.WriteString("/- GENERATED by harness/extract_c03 from allocate.go, cluster_config.go, the allocators, monitor/metrics, pubsubmon, api/types.go, rpc_api.go, cluster.go; do not edit. -/\nimport ClusterVerif.Model.C03Pipeline\nnamespace CV.C03.Gen\n\n")
 	b.WriteString(leanList("allocateSkeleton", "allocate(): guards, where the metrics come from, and how the result of obtainAllocations is returned", early))
 	b.WriteString(leanList("classification", "allocate(): the cases, in order, that sort each valid metric into blacklisted / current / priority / candidate", cases))
 	b.WriteString(leanList("obtainSkeleton", "obtainAllocations(): definitions, guards (with what they return) and the final return, in order", oSk))
@@ -229,6 +426,28 @@ func main() {
 	b.WriteString(leanList("descendAllocate", "descendalloc.Allocate, whole", whole(descF, "DescendAllocator", "Allocate")))
 	b.WriteString(leanList("sortNumeric", "util.SortNumeric, whole", whole(sortF, "", "SortNumeric")))
 	b.WriteString(leanList("sorterLess", "metricSorter.Less, whole", whole(sortF, "metricSorter", "Less")))
+	b.WriteString("/-- the shape of the classification loop (first true guard wins / last fill wins) -/\ndef classifier : Classifier := " + classifier + "\n\n")
+	b.WriteString("/-- the shape of SortNumeric's loop and of metricSorter.Less -/\ndef sortShape : SortShape := " + sortShape(funcDecl(sortF, "SortNumeric"), funcDeclRecv(sortF, "metricSorter", "Less")) + "\n\n")
+	b.WriteString(leanList("obtainCall", "allocate(): which group goes to which parameter of obtainAllocations", calls))
+	storeF, utilF, monF, winF, typesF := parse("monitor/metrics/store.go"), parse("monitor/metrics/util.go"), parse("monitor/pubsubmon/pubsubmon.go"), parse("monitor/metrics/window.go"), parse("api/types.go")
+	rpcF, clusterF := parse("rpc_api.go"), parse("cluster.go")
+	b.WriteString(leanList("storeAdd", "metrics.Store.Add, whole", whole(storeF, "*Store", "Add")))
+	b.WriteString(leanList("storeLatestValid", "metrics.Store.LatestValid, whole", whole(storeF, "*Store", "LatestValid")))
+	b.WriteString(leanList("peersetFilter", "metrics.PeersetFilter, whole", whole(utilF, "", "PeersetFilter")))
+	b.WriteString(leanList("monLatestMetrics", "pubsubmon.Monitor.LatestMetrics, whole (tracing left in)", whole(monF, "*Monitor", "LatestMetrics")))
+	b.WriteString(leanList("windowAdd", "metrics.Window.Add, whole", whole(winF, "*Window", "Add")))
+	b.WriteString(leanList("windowLatest", "metrics.Window.Latest, whole", whole(winF, "*Window", "Latest")))
+	b.WriteString(leanList("metricDiscard", "api.Metric.Discard, whole", whole(typesF, "*Metric", "Discard")))
+	b.WriteString(leanList("metricExpired", "api.Metric.Expired, whole", whole(typesF, "*Metric", "Expired")))
+	b.WriteString(leanList("blockAllocate", "ClusterRPCAPI.BlockAllocate, whole", whole(rpcF, "*ClusterRPCAPI", "BlockAllocate")))
+	var pinCalls []string
+	ast.Inspect(funcDeclRecv(clusterF, "*Cluster", "pin"), func(n ast.Node) bool {
+		if c, ok := n.(*ast.CallExpr); ok && src(c.Fun) == "c.allocate" {
+			pinCalls = append(pinCalls, src(c))
+		}
+		return true
+	})
+	b.WriteString(leanList("pinAllocateCall", "Cluster.pin(): the arguments of its allocate() call", pinCalls))
 	b.WriteString("end CV.C03.Gen\n")
 	fmt.Print(b.String())
 }
